@@ -80,7 +80,19 @@ func runC11(r *mc.Run) {
 		if sv != 0 || pc != 0 || fm != 0 || ids != 0 {
 			w.PKI = T.WithLeaf(w.Plat)
 		}
-		sp := world.QuoteSpec{PKI: w.PKI, Auth: world.Fill("c11-auth", authLens[al]), Extra: world.Fill("c11-extra", extraLens[el]), NulAfter: nul == 1,
+		attKey := world.NewKey("att")
+		if ks := c.Choose("attestation-key-shape", 4); ks != 0 {
+			// keys whose X / Y coordinate starts with a zero octet (1 in 128 fresh keys), or with the high bit set
+			for n := 0; ; n++ {
+				k := world.NewKey(fmt.Sprintf("c11-att-shape%d-%d", ks, n))
+				raw := k.Raw64()
+				if (ks == 1 && raw[0] == 0) || (ks == 2 && raw[32] == 0) || (ks == 3 && raw[0] >= 0x80 && raw[32] >= 0x80) {
+					attKey = k
+					break
+				}
+			}
+		}
+		sp := world.QuoteSpec{PKI: w.PKI, AttKey: attKey, Auth: world.Fill("c11-auth", authLens[al]), Extra: world.Fill("c11-extra", extraLens[el]), NulAfter: nul == 1,
 			FillLabel: "c11", PceSvn: 0x0d07, QeSvn: 0x0208}
 		sp.TeeTcbSvn = []byte{3, []byte{0, 3, 0x0a}[svn1], 5, 0, 0, 0, 0, 0, 0, 0, 0, 0, 0, 0, 0, 1}
 		sp.MrSeamSigner = world.Fill("c11-seam", 48)
@@ -113,7 +125,7 @@ func runC11(r *mc.Run) {
 					set(p.QEReport[f.Off : f.Off+f.Len])
 				}
 			}
-			p.SignBody(world.NewKey("att"))
+			p.SignBody(attKey)
 			p.SignQE(w.PKI.LeafKey)
 		}
 		w.Parts = p
